@@ -133,7 +133,16 @@ def main():
     lines = []
     seen_cls = set()
     os.makedirs(os.path.join(VERIF, "replays"), exist_ok=True)
+    # round-robin over clauses so that the (at most 10) printed witnesses cover as many clauses as possible
+    byclause = {}
     for v in new:
+        byclause.setdefault(v["clause"], []).append(v)
+    ordered = []
+    while any(byclause.values()):
+        for c in sorted(byclause):
+            if byclause[c]:
+                ordered.append(byclause[c].pop(0))
+    for v in ordered:
         cls = (v["clause"], v.get("model"), v.get("regime"))
         if cls in seen_cls or len(lines) >= 10:
             continue
